@@ -487,6 +487,19 @@ def _run_odict(kind, case, feats, probes):
                 expect(kind, name, got, ("ret", None), ctx + " (index %d)" % idx)
         elif name == "reorder":
             _, form, pairs = op
+            if form == "permuted":
+                # `other` = another odict holding the current items in another order (equal as a dict, not the same
+                # object): the keys must end up in other's order
+                items = [[k, m.d[k]] for k in m.order]
+                r = int(pairs)
+                if items:
+                    if r % 2:
+                        items.reverse()
+                    else:
+                        j = (r // 2) % len(items) or 1
+                        items = items[j:] + items[:j]
+                form, pairs = "odict", items
+                feats.permuted_reorder = getattr(feats, "permuted_reorder", 0) + 1
             if form == "self":
                 got = attempt(lambda: real.reorder(real))
                 expect(kind, "reorder-self", got, ("ret", None), ctx)
@@ -997,6 +1010,7 @@ def strategies(kind):
             st.tuples(st.just("update"), args, kw), st.tuples(st.just("create"), args, kw),
             st.tuples(st.just("insert"), st.integers(0, 7), key, ints),
             st.tuples(st.just("reorder"), st.sampled_from(reforms), pairs),
+            st.tuples(st.just("reorder"), st.just("permuted"), st.integers(0, 7)),
             st.tuples(st.just("sift"), st.one_of(st.none(), st.lists(key, max_size=3))),
             st.tuples(st.just("append"), key, ints), st.just(("copy",)),
             st.tuples(st.just("pickle"), st.sampled_from(PROTOS)), st.just(("clear",)),
